@@ -67,6 +67,8 @@ pub struct Inner {
     pub delayed_calls: u64,
     /// a mutating call that hits an injected failure reports it this many (tokio) milliseconds later (0 = at once)
     pub fail_latency_ms: u64,
+    /// the next `remove_tombstones` call (and only such a call) fails this way
+    pub purge_fault: Option<Fault>,
 }
 
 /// Process-wide order of successful storage writes (all stores, all threads).
@@ -227,6 +229,18 @@ impl Storage for ModelStore {
         }
         self.pre_delay().await;
         let gate = self.gate().map_err(BulkMutationError::empty_with_error)?;
+        let purge_fault = {
+            let mut g = self.inner.lock();
+            let f = g.purge_fault.take();
+            if f.is_some() {
+                g.injected += 1;
+            }
+            f
+        };
+        let gate = match (gate, purge_fault) {
+            (Gate::Proceed { .. }, Some(f)) => Gate::Fail(f),
+            (g, _) => g,
+        };
         let (keep, fail, park): (Box<dyn Fn(usize) -> bool + Send>, bool, bool) = match gate {
             Gate::Proceed { park } => (Box::new(|_| true), false, park),
             Gate::Fail(Fault::FailBefore) => (Box::new(|_| false), true, false),
